@@ -88,3 +88,32 @@ package server
 //@   assert at call (server.rawHandler).ServeRaw#1: lastret("server.acceptHeader") == acceptOK && lastret("internal/wire.ParseHeader", 1) && dyntype(arg1, *udpJob) && as(arg1, *udpJob) == j && calls("(server.inlineRawHandler).ServeRawReplay") == 0
 //@   assert at call (*server.udpJob).rejectInPlace#2: arg1 == acceptFormatError && !lastret("(server.inlineRawHandler).ServeRawReplay")
 //@   assert at call (*server.udpJob).rejectInPlace#3: arg1 == acceptFormatError && !lastret("(server.rawHandler).ServeRaw")
+//@
+//@ # ---- C10: a pooled TCP stream starts every connection EMPTY: nothing a previous connection read (start/end) or
+//@ # staged for sending (held) and no sticky write error survives the rebinding to the new connection
+//@ func (*tcpStream).reset
+//@   abstract
+//@   nosafety all pre
+//@   assert at store server.tcpStream.conn#1: value == conn
+//@   assert at store server.tcpStream.start#1: value == 0
+//@   assert at store server.tcpStream.end#1: value == 0
+//@   assert at store server.tcpStream.held#1: value == 0
+//@   assert at store server.tcpStream.werr#1: value == nil
+//@
+//@ # ---- C10: each UDP reader's inline transmit burst owns sender slot workers+idx - disjoint from every worker's slot
+//@ # (0..workers-1) - so a reader and a worker never arm and send through the same descriptors
+//@ func newUDPBatchReader
+//@   abstract
+//@   nosafety all pre
+//@   assert at store server.udpTXBurst.slot#1: 0 <= e.workers && e.workers <= 1048576 && 0 <= idx && idx <= 1048576 ==> value == e.workers + idx
+//@
+//@ # ---- C11: the admission token a TCP frame takes and the slab class it is served from are decided by ONE predicate
+//@ # (largeClass: length > tcpSmallFrame), so the token that is returned on release always belongs to the class the
+//@ # token was taken from - a frame of exactly tcpSmallFrame bytes is a small frame on both sides
+//@ func largeClass
+//@   modifies nothing
+//@   ensures result == (length > tcpSmallFrame)
+//@ func (*tcpEngine).tokens
+//@   requires e != nil
+//@   modifies nothing
+//@   ensures result == ite(length > tcpSmallFrame, e.largeTokens, e.smallTokens)
